@@ -126,7 +126,7 @@ func runC07(c *mon.Ctx) {
 	}
 	c.SetAdd("registry_configurations", reg.name)
 	c.Count("config:" + reg.name)
-	c.Rule("one worker process per registry configuration (base profiles only; + P2-based extension; + P2- and P1-based extensions; + 8 further P2-based profiles sharing the JSON profile member; + 4 P2-based and 4 P1-based further profiles). Tokens = valid and rule-breaking claims-sets of every registered profile, serialised to CBOR and to JSON by the harness, with the profile claim: a registered name / absent / an unregistered name / the name of a profile not registered in this configuration / another base profile's name / a non-text value / present under both profiles' keys / null; plus sets that are valid only under the *other* base profile's rules (P2 with EAN-13 reference, P1 with short or no boot seed). Oracle (determinate cases): the dynamic type and canonical profile of the result of DecodeClaimsFromCBOR/JSON must be those registered under the declared name, P1 when nothing is declared, an error for an unregistered value; the validating decoders accept iff the set is valid under the declared profile's rules and an accepted token's GetProfile() returns the declared name (P1's when none); CBOR and JSON must agree; NewClaims(p) returns the registered type, reports p, and fails for unregistered names. NO-VERDICT (counted; only 'never accepted under another profile' is asserted): null profile, key 265 on a P1-keyed token, P1 name under key 265, both members present with one unknown, a P1-derived extension in CBOR (not selectable by design: its name lives under -75000). distinct_nontrivial = distinct (configuration, format, base, declaration class, validity class) signatures")
+	c.Rule("one worker process per registry configuration (base profiles only; + P2-based extension; + P2- and P1-based extensions; + 8 further P2-based profiles sharing the JSON profile member; + 4 P2-based and 4 P1-based further profiles). Tokens = valid and rule-breaking claims-sets of every registered profile, serialised to CBOR and to JSON by the harness, with the profile claim: a registered name / absent / an unregistered name / the name of a profile not registered in this configuration / another base profile's name / a non-text value / present under both profiles' keys / null; plus sets that are valid only under the *other* base profile's rules (P2 with EAN-13 reference, P1 with short or no boot seed). Oracle (determinate cases): the dynamic type and canonical profile of the result of DecodeClaimsFromCBOR/JSON must be those registered under the declared name, P1 when nothing is declared, an error for an unregistered value; the validating decoders accept iff the set is valid under the declared profile's rules and an accepted token's GetProfile() returns the declared name (P1's when none); CBOR and JSON must agree; NewClaims(p) returns the registered type, reports p, and fails for unregistered names. In CBOR the profile claim is key 265, so a token carrying BOTH 265 and P1's -75000 is judged by 265 (P2 name -> P2 implementation, unregistered -> error); in JSON a quarter of the profile strings are spelled with escape sequences (same value). NO-VERDICT (counted; only 'never accepted under another profile' is asserted): null profile, P1 name under key 265, JSON documents carrying both members with one unregistered, both members present with one unknown, a P1-derived extension in CBOR (not selectable by design: its name lives under -75000). distinct_nontrivial = distinct (configuration, format, base, declaration class, validity class) signatures")
 	g := model.NewGen(c.Seed*4421 + int64(c.Shard))
 
 	// ---- NewClaims
@@ -310,20 +310,37 @@ func runC07(c *mon.Ctx) {
 		}
 		for _, format := range []string{"cbor", "json"} {
 			e := exp
+			cborBothValid := -1 // -1: not a both-keys case; 0: content not understood by the selected profile; 1: content valid iff the set is
 			var input []byte
 			if format == "cbor" {
 				w := a.WireCBOR()
 				switch {
 				case both:
+					// in CBOR the token's profile claim is key 265 (P1's own -75000 is just another
+					// claim of the P1 implementation), so these are determinate
 					if base == 1 {
 						w.Items = append(w.Items, refcbor.I(model.P2KProfile), refcbor.Tstr(model.P2Name))
+						e = c07Exp{"type", model.P2Name, "key 265 names profile 2 (on a P1-keyed token)", model.P2Name}
+						cborBothValid = 0
 					} else {
 						w.Items = append(w.Items, refcbor.I(model.P1KProfile), refcbor.Tstr(model.P1Name))
+						e = c07Exp{"type", model.P2Name, "key 265 names profile 2 (P1's -75000 is an unknown key to it)", model.P2Name}
+						cborBothValid = 1
 					}
 				case nullProfile:
 					w.Items = append(w.Items, refcbor.I(model.KeyOf(base, "profile")), refcbor.Null())
 				case key265onP1:
-					w.Items = append(w.Items, refcbor.I(model.P2KProfile), refcbor.Tstr([]string{model.P1Name, model.P2Name, "http://example.com/unregistered/1"}[g.R.Intn(3)]))
+					v265 := []string{model.P1Name, model.P2Name, "http://example.com/unregistered/1"}[g.R.Intn(3)]
+					w.Items = append(w.Items, refcbor.I(model.P2KProfile), refcbor.Tstr(v265))
+					switch v265 {
+					case model.P2Name:
+						e = c07Exp{"type", model.P2Name, "key 265 names profile 2 (on a P1-keyed token)", model.P2Name}
+						cborBothValid = 0
+					case model.P1Name:
+						// open encoding (profile-1 name under key 265)
+					default:
+						e = c07Exp{"error", "", "key 265 carries an unregistered profile value (on a P1-keyed token)", v265}
+					}
 				case nontext:
 					w.Items = append(w.Items, refcbor.I(model.P2KProfile), []*refcbor.Node{refcbor.U(2), refcbor.Arr(refcbor.Tstr(model.P2Name)), refcbor.Bool(true), refcbor.MapOf()}[g.R.Intn(4)])
 				}
@@ -363,6 +380,21 @@ func runC07(c *mon.Ctx) {
 				if g.R.Intn(3) == 0 {
 					g.R.Shuffle(len(ms), func(x, y int) { ms[x], ms[y] = ms[y], ms[x] })
 				}
+				if g.R.Intn(4) == 0 {
+					// the same string VALUE spelled with JSON escapes
+					for mi := range ms {
+						if ms[mi].Name == "eat-profile" || ms[mi].Name == "psa-profile" {
+							v := ms[mi].Value
+							if len(v) > 2 && v[0] == '"' {
+								v = strings.ReplaceAll(v, "/", `\/`)
+								v = strings.Replace(v, "_", `\u005f`, 1)
+								v = strings.Replace(v, "a", `\u0061`, 1)
+								ms[mi].Value = v
+							}
+						}
+					}
+					c.Count("json-profile-spelled-with-escapes")
+				}
 				input = model.MembersJSON(ms)
 				if decl == "p2-name-under-p1-key" || decl == "p1-name-under-p2-key" {
 					e = c07Exp{"error", "", "no registered profile has this (member, value) pair", exp.declared}
@@ -374,6 +406,13 @@ func runC07(c *mon.Ctx) {
 			sig := fmt.Sprintf("%s|%s|base%d|%s|%s", reg.name, format, base, decl, valClass)
 			c.Sig(sig)
 			mv, am, skipValidity := modelValid && e.verdict == "type" && e.name == exp.name && exp.verdict == "type", a, false
+			if format == "cbor" && cborBothValid >= 0 {
+				// both-keys cases made determinate above
+				mv = cborBothValid == 1 && a.Valid()
+				if cborBothValid == 1 && !(a.Profile != nil && *a.Profile == model.P2Name) {
+					skipValidity = true
+				}
+			}
 			if format == "json" && base == 2 && decl == "absent" {
 				// P1 and P2 share most JSON member names: without profile member this
 				// document simply IS a profile-1 document (minus the members P1 does not know)
